@@ -1,9 +1,10 @@
 #!/usr/bin/env python3
 """Render DESIGN.md section 11 (which checks catch which seeded changes) from seeded/*/meta.json and a seedtest log."""
 import json, os, re, sys, glob
-log = sys.argv[1]
+# usage: seed_table.py <round> <log> [<log> ...]   (only the seeded changes named in the logs are touched)
+rnd = int(sys.argv[1])
 res = {}
-for line in open(log):
+for line in [l for f in sys.argv[2:] for l in open(f)]:
     m = re.match(r"(\S+) (DONE|PATCH-FAILED) (.*)", line.strip())
     if not m:
         continue
@@ -13,12 +14,14 @@ for line in open(log):
         pm = re.match(r"(C\d+) rc=(-?\d+) (\d+)s sigs=(\[.*?\]) ", part + " ")
         if pm:
             runs[pm.group(1)] = (int(pm.group(2)), eval(pm.group(4)))
-    res[sid] = runs
+    res.setdefault(sid, {}).update(runs)
 rows = []
 for d in sorted(glob.glob("/verif/seeded/*/meta.json")):
     m = json.load(open(d))
     sid = m["id"]
-    runs = res.get(sid, {})
+    if sid not in res or m.get("round", 1) != rnd:
+        continue
+    runs = res[sid]
     caught = ["%s (%s)" % (p, ", ".join("`%s`" % s for s in sig[:2])) for p, (rc, sig) in runs.items() if rc == 1]
     missed = [p for p, (rc, sig) in runs.items() if rc != 1]
     summ = (m.get("summary") or "").replace("\n", " ").replace("|", "/")
